@@ -75,88 +75,94 @@ def misc_table(case):
     return tab
 
 
+def evaluate(ctx, n, with_second=True):
+    """-> (failing, breaks, coverage dict); failing entries carry a key ('refused-..', 'not-converged', ...)"""
+    failing, breaks, cov = [], [], {}
+    cases = corpus() + [gen_case(ctx.rng) for _ in range(n)]
+    jobs = [dict(model='PAN-OS', device=P.config_xml(c['dev']), netspoc=P.config_xml(c['tgt'])) for c in cases]
+    res = drcrun.run_many(ctx, jobs)
+    items, meta = [], []
+    for i, (c, job, r) in enumerate(zip(cases, jobs, res)):
+        rep = dict(property='C03', command='drc -q device code/router', device=job['device'], netspoc=job['netspoc'],
+                   edits=c['edits'], stdout=r['out'], stderr=r['err'][-500:], rc=r['rc'])
+        if r['panic'] or r['rc'] not in (0, 1):
+            failing.append(dict(what='drc crashes', replay=rep, finding=None, key='crash'))
+            continue
+        if r['rc'] != 0:
+            breaks.append(dict(correspondence='generated PAN-OS pair rejected by drc', case=rep))
+            continue
+        per, bad = P.parse_script(r['out'])
+        if bad:
+            breaks.append(dict(correspondence='command not understood by the PAN-OS device model', case=dict(rep, commands=bad[:3])))
+            continue
+        devd = dict(c['dev'])
+        for name, t in c['tgt']:
+            d = devd[name]
+            items.append('{| pc_dev := %s; pc_tgt := %s; pc_ops := %s |}' % (P.c_vsys(d), P.c_vsys(t), C.clist(per.get(name, []))))
+            meta.append((i, name, rep, bool(per.get(name))))
+        for name in per:
+            if name not in dict(c['tgt']):
+                failing.append(dict(what='commands for vsys %s that the target does not contain' % name, replay=rep, finding=None, key='foreign-vsys'))
+    verdicts = []
+    for k in range(0, len(items), 200):
+        text = ('From Coq Require Import List String.\nFrom NA Require Import Robust.GoStr Panos.Device Panos.Oracle Panos.Rules Panos.Proofs Panos.Check.\nImport ListNotations.\nOpen Scope string_scope.\n'
+                'Definition V := Eval vm_compute in map (fun c => (judge c, already_equiv c, plan_verdict (names (pc_dev c)) (pc_ops c))) %s.\nPrint V.\n' % C.clist(items[k:k + 200]))
+        verdicts += parse_coq_term(ctx.coq_eval('c03_%d' % k, text))
+    if len(verdicts) != len(items):
+        raise RuntimeError('verdict count %d != %d' % (len(verdicts), len(items)))
+    second, second_meta = [], []
+    nontrivial = 0
+    for (i, name, rep, has_cmds), v in zip(meta, verdicts):
+        (pos, why, conv, unused, rendered, already, pv) = v
+        if pv:
+            breaks.append(dict(correspondence='rule commands are not the plan of Panos/Rules.v for the reconstructed edit script (%s)' % ('shape' if pv == 1 else 'hypotheses'), case=dict(rep, vsys=name)))
+        conv, already = (conv == 'true'), (already == 'true')
+        c = cases[i]
+        fnd = classify(c, None)
+        fid = 'F-C03-2' if 'sgrp_members_removed' in fnd else None
+        if has_cmds:
+            nontrivial += 1
+        if pos:
+            failing.append(dict(what='vsys %s: command %d is refused by the device: %s' % (name, pos, WHY.get(why, why)),
+                                replay=dict(rep, vsys=name, refused_command=pos, reason=WHY.get(why, why)), finding=fid, key='refused-%d' % why))
+            continue
+        if not conv:
+            failing.append(dict(what='vsys %s: after the commands the rulebase is not equivalent to the target' % name,
+                                replay=dict(rep, vsys=name, final_state=rendered), finding=fid, key='not-converged'))
+            continue
+        if not has_cmds and not already:
+            failing.append(dict(what='vsys %s: no change reported although the rulebase is not equivalent to the target' % name,
+                                replay=dict(rep, vsys=name), finding=fid, key='silent-difference'))
+            continue
+        # second compare on the resulting state
+        fin = P.vsys_from_render(rendered, misc_table(c))
+        devs = [(nm, fin if nm == name else dv) for nm, dv in c['dev']]
+        second.append(dict(model='PAN-OS', device=P.config_xml(devs), netspoc=P.config_xml([(nm, t) for nm, t in c['tgt'] if nm == name])))
+        second_meta.append((i, name, rep, fid))
+    res2 = drcrun.run_many(ctx, second)
+    for (i, name, rep, fid), job, r in zip(second_meta, second, res2):
+        per2, _ = P.parse_script(r['out'])
+        if r['rc'] != 0 or per2:
+            failing.append(dict(what='vsys %s: the second compare on the resulting configuration reports changes again' % name,
+                                replay=dict(rep, vsys=name, second_device=job['device'], second_stdout=r['out'], second_stderr=r['err'][-300:]),
+                                finding=fid, key='not-idempotent'))
+    import collections
+    ed = collections.Counter(e for c in cases for el in c['edits'] for e in el)
+    cov = dict(evaluations=len(cases) + len(second), distinct_nontrivial=len(set(items)), scripts_with_commands=nontrivial,
+               rule='generated vsys pairs: 0-6 rules over 16 addresses, 0-3 address-groups, service-group, 1-2 vsys; device = target after 0-4 edits '
+                    '(rule deleted / inserted / moved / renamed, group renamed / grown / shrunk / split / shared / replaced by its members, address or '
+                    'service value changed under the same name, spare objects and groups, name clashes of rules and groups, extra attributes); '
+                    'distinct by (device, target, script)',
+               edit_distribution=dict(ed), traces_validated_against_impl=len(items), second_compares=len(second),
+               samples=[meta[0][2]] if meta else [])
+    return failing, breaks, cov
+
+
 def main(ctx):
     st = ctx.proof_status()
     failing, breaks, cov = [], [], {}
     if ctx.build_impl():
-        n = 150 if ctx.tier == 'quick' else 3000
-        cases = corpus() + [gen_case(ctx.rng) for _ in range(n)]
-        jobs = [dict(model='PAN-OS', device=P.config_xml(c['dev']), netspoc=P.config_xml(c['tgt'])) for c in cases]
-        res = drcrun.run_many(ctx, jobs)
-        items, meta = [], []
-        for i, (c, job, r) in enumerate(zip(cases, jobs, res)):
-            rep = dict(property='C03', command='drc -q device code/router', device=job['device'], netspoc=job['netspoc'],
-                       edits=c['edits'], stdout=r['out'], stderr=r['err'][-500:], rc=r['rc'])
-            if r['panic'] or r['rc'] not in (0, 1):
-                failing.append(dict(what='drc crashes', replay=rep, finding=None, key='crash'))
-                continue
-            if r['rc'] != 0:
-                breaks.append(dict(correspondence='generated PAN-OS pair rejected by drc', case=rep))
-                continue
-            per, bad = P.parse_script(r['out'])
-            if bad:
-                breaks.append(dict(correspondence='command not understood by the PAN-OS device model', case=dict(rep, commands=bad[:3])))
-                continue
-            devd = dict(c['dev'])
-            for name, t in c['tgt']:
-                d = devd[name]
-                items.append('{| pc_dev := %s; pc_tgt := %s; pc_ops := %s |}' % (P.c_vsys(d), P.c_vsys(t), C.clist(per.get(name, []))))
-                meta.append((i, name, rep, bool(per.get(name))))
-            for name in per:
-                if name not in dict(c['tgt']):
-                    failing.append(dict(what='commands for vsys %s that the target does not contain' % name, replay=rep, finding=None, key='foreign-vsys'))
-        verdicts = []
-        for k in range(0, len(items), 200):
-            text = ('From Coq Require Import List String.\nFrom NA Require Import Robust.GoStr Panos.Device Panos.Oracle Panos.Rules Panos.Proofs Panos.Check.\nImport ListNotations.\nOpen Scope string_scope.\n'
-                    'Definition V := Eval vm_compute in map (fun c => (judge c, already_equiv c, plan_verdict (names (pc_dev c)) (pc_ops c))) %s.\nPrint V.\n' % C.clist(items[k:k + 200]))
-            verdicts += parse_coq_term(ctx.coq_eval('c03_%d' % k, text))
-        if len(verdicts) != len(items):
-            raise RuntimeError('verdict count %d != %d' % (len(verdicts), len(items)))
-        second, second_meta = [], []
-        nontrivial = 0
-        for (i, name, rep, has_cmds), v in zip(meta, verdicts):
-            (pos, why, conv, unused, rendered, already, pv) = v
-            if pv:
-                breaks.append(dict(correspondence='rule commands are not the plan of Panos/Rules.v for the reconstructed edit script (%s)' % ('shape' if pv == 1 else 'hypotheses'), case=dict(rep, vsys=name)))
-            conv, already = (conv == 'true'), (already == 'true')
-            c = cases[i]
-            fnd = classify(c, None)
-            fid = 'F-C03-2' if 'sgrp_members_removed' in fnd else None
-            if has_cmds:
-                nontrivial += 1
-            if pos:
-                failing.append(dict(what='vsys %s: command %d is refused by the device: %s' % (name, pos, WHY.get(why, why)),
-                                    replay=dict(rep, vsys=name, refused_command=pos, reason=WHY.get(why, why)), finding=fid, key='refused-%d' % why))
-                continue
-            if not conv:
-                failing.append(dict(what='vsys %s: after the commands the rulebase is not equivalent to the target' % name,
-                                    replay=dict(rep, vsys=name, final_state=rendered), finding=fid, key='not-converged'))
-                continue
-            if not has_cmds and not already:
-                failing.append(dict(what='vsys %s: no change reported although the rulebase is not equivalent to the target' % name,
-                                    replay=dict(rep, vsys=name), finding=fid, key='silent-difference'))
-                continue
-            # second compare on the resulting state
-            fin = P.vsys_from_render(rendered, misc_table(c))
-            devs = [(nm, fin if nm == name else dv) for nm, dv in c['dev']]
-            second.append(dict(model='PAN-OS', device=P.config_xml(devs), netspoc=P.config_xml([(nm, t) for nm, t in c['tgt'] if nm == name])))
-            second_meta.append((i, name, rep, fid))
-        res2 = drcrun.run_many(ctx, second)
-        for (i, name, rep, fid), job, r in zip(second_meta, second, res2):
-            per2, _ = P.parse_script(r['out'])
-            if r['rc'] != 0 or per2:
-                failing.append(dict(what='vsys %s: the second compare on the resulting configuration reports changes again' % name,
-                                    replay=dict(rep, vsys=name, second_device=job['device'], second_stdout=r['out'], second_stderr=r['err'][-300:]),
-                                    finding=fid, key='not-idempotent'))
-        import collections
-        ed = collections.Counter(e for c in cases for el in c['edits'] for e in el)
-        cov = dict(evaluations=len(cases) + len(second), distinct_nontrivial=len(set(items)), scripts_with_commands=nontrivial,
-                   rule='generated vsys pairs: 0-6 rules over 16 addresses, 0-3 address-groups, service-group, 1-2 vsys; device = target after 0-4 edits '
-                        '(rule deleted / inserted / moved / renamed, group renamed / grown / shrunk / split / shared / replaced by its members, address or '
-                        'service value changed under the same name, spare objects and groups, name clashes of rules and groups, extra attributes); '
-                        'distinct by (device, target, script)',
-                   edit_distribution=dict(ed), traces_validated_against_impl=len(items), second_compares=len(second),
-                   samples=[meta[0][2]] if meta else [])
+        failing, breaks, cov = evaluate(ctx, 150 if ctx.tier == 'quick' else 3000)
     cov = C.proof_coverage(ctx, cov)
     return C.finish(ctx, failing, breaks, cov,
                     ['XML-API semantics assumed by Panos/Device.v: set creates an entry or merges into an existing one (members are added, never removed), '
